@@ -1,7 +1,9 @@
 package verifh
 
 import (
+	"bytes"
 	"encoding/hex"
+	"testing/synctest"
 	"syscall"
 
 	"github.com/spf13/afero"
@@ -200,7 +202,7 @@ func c02Geometry(bounds []int64, size int64) []geo {
 func TestC02(t *testing.T) {
 	r := NewReporter(t)
 	defer r.Done()
-	r.Rule("objects: plain files of 9 boundary sizes, sparse 4 GiB+5 file, generated image (DVD and PS3 mode; also of directories holding encrypted images and key files), redump view (adjacent key), 3k3y encrypted and decrypted views; histories OpenFile.r1 and OpenFile.r1.x.r2 with r in {ordinary, critical} x (offset,limit) from structural boundaries +-1 x lengths {0,1,2,2047,2048,2049,65536,65537,to-boundary+-1} incl. offset >= size, x in {none, Stat, OpenDir+ReadDir, OpenFile(other)+OpenFile(obj)}; oracle = announced size/mtime and exact bytes/length/connection state; distinct by (object, history)")
+	r.Rule("objects: plain files of 9 boundary sizes, sparse 4 GiB+5 file, generated image (DVD and PS3 mode; also of directories holding encrypted images and key files), redump view (adjacent key), 3k3y encrypted and decrypted views; histories OpenFile.r1 and OpenFile.r1.x.r2 with r in {ordinary, critical} x (offset,limit) from structural boundaries +-1 x lengths {0,1,2,2047,2048,2049,65536,65537,to-boundary+-1} incl. offset >= size, x in {none, Stat, OpenDir+ReadDir, OpenFile(other)+OpenFile(obj)}; all ordered pairs of objects transferred at the same time on two connections (a slow receiver interrupted by a complete transfer of the other object) x {ordinary, critical} x buffer {default, 1000}; oracle = announced size/mtime and exact bytes/length/connection state; distinct by (object, history)")
 	w, objs := buildC02World(t, r)
 	defer w.Cleanup()
 	special := map[string]*roObj{}
@@ -428,6 +430,105 @@ func TestC02(t *testing.T) {
 							reqs = append(reqs, mk(c2, g2))
 							run(o, reqs)
 						}
+					}
+				}
+			}
+		}
+	}
+	// transfers that overlap in time on two connections: a slow receiver takes one byte of its answer, a second
+	// client reads another object completely, then the first takes the rest - each still gets its own object's bytes
+	c02Overlap(t, r, w, objs, &idx)
+}
+
+func c02Overlap(t *testing.T, r *Reporter, w *World, objs []c02Obj, idx *int) {
+	var cand []c02Obj
+	for _, o := range objs {
+		ro := o.obj
+		if ro == nil {
+			ro = fileObj(filepath.Join(w.Root, filepath.FromSlash(strings.TrimPrefix(o.path, "/"))))
+		}
+		if ro == nil || ro.size < 3000 || ro.size > 1<<20 {
+			continue
+		}
+		o.obj = ro
+		cand = append(cand, o)
+	}
+	for _, bs := range []int64{0, 1000} {
+		for _, crit := range []bool{false, true} {
+			for _, a := range cand {
+				for _, b := range cand {
+					*idx++
+					if !r.Mine(*idx) || r.TimeUp() {
+						continue
+					}
+					key := sprintf("overlap|%s|%s|crit=%v|buf=%d", a.path, b.path, crit, bs)
+					r.State(key)
+					r.Nontrivial(key)
+					r.Eval(1)
+					why := ""
+					synctest.Test(t, func(t *testing.T) {
+						s := startSrv(SrvOpts{Root: w.Root, BufSize: bs})
+						defer s.Shutdown()
+						read := func(o c02Obj) Req {
+							n := uint32(min(o.obj.size-1, 200000))
+							if crit {
+								return rdcReq(1, n)
+							}
+							return rdReq(1, n)
+						}
+						hdr := 4
+						if crit {
+							hdr = 0
+						}
+						check := func(who string, o c02Obj, got []byte) {
+							rq := read(o)
+							if why != "" {
+								return
+							}
+							if len(got) != szOpenFile+hdr+int(rq.Limit) {
+								why = sprintf("%s (%s): %d response bytes, want %d", who, o.path, len(got), szOpenFile+hdr+int(rq.Limit))
+								return
+							}
+							data, want := append([]byte{}, got[szOpenFile+hdr:]...), append([]byte{}, o.obj.read(1, int(rq.Limit))...)
+							if o.obj.mask != nil {
+								o.obj.mask(1, data)
+								o.obj.mask(1, want)
+							}
+							if !bytes.Equal(data, want) {
+								why = sprintf("%s (%s): %s", who, o.path, describeDiff(data, want))
+							}
+						}
+						ca := s.Dial(nil)
+						ca.outCap = 700
+						ca.Send(mkReq(opOpenFile, a.path).Encode())
+						ca.Send(read(a).Encode())
+						synctest.Wait()
+						gotA := ca.TakeN(szOpenFile + hdr + 1)
+						synctest.Wait()
+						cb := s.Dial(nil)
+						cb.Send(mkReq(opOpenFile, b.path).Encode())
+						cb.Send(read(b).Encode())
+						synctest.Wait()
+						check("the second client", b, cb.Take())
+						cb.Fin()
+						for {
+							x := ca.TakeN(650)
+							synctest.Wait()
+							if len(x) == 0 {
+								break
+							}
+							gotA = append(gotA, x...)
+						}
+						check("the slow client", a, gotA)
+						ca.Fin()
+						synctest.Wait()
+						r.Transition(4)
+					})
+					if why != "" {
+						r.Outcome("overlap:bad")
+						r.Violation("C02:overlap:"+a.kind+"+"+b.kind, sprintf("two connections transferring at the same time (slow receiver reads %s, meanwhile another client reads %s, critical=%v, buffer %d): %s", a.path, b.path, crit, bs, why), map[string]any{"slow": a.path, "other": b.path, "critical": crit, "buffer_size": bs})
+					} else {
+						r.Outcome("overlap:ok")
 					}
 				}
 			}
